@@ -59,6 +59,17 @@ def normalize_alignment(who, alignment):
     else:
         return _valid_alignment[alignment]
             
+def _own_constraints(constraints: List[Constraint]) -> List[Constraint]:
+    """A block records its own geometry on the constraints it is given, so it
+    works on its own copies: the caller's objects stay reusable in other blocks."""
+    owned = []
+    for ct in constraints:
+        ct = copy.copy(ct)
+        if getattr(ct, 'within_block', None) is not None:
+            ct.within_block = None  # type: ignore
+        owned.append(ct)
+    return owned
+
 class MultiCrossBlockRepeat(Block):
     """An internal :class:`.Block` to handle blocks and repeats.
     """
@@ -73,7 +84,7 @@ class MultiCrossBlockRepeat(Block):
         argcheck(who, constraints, make_islistof(Constraint), "list of Constraints for constraints")
         self._create(who, design,
                      crossings, [1 for c in crossings], [1 for c in crossings],
-                     constraints, require_complete_crossing)
+                     _own_constraints(constraints), require_complete_crossing)
 
     def _create(self,
                 who: str,
@@ -560,7 +571,7 @@ class MultiCrossBlock(MultiCrossBlockRepeat):
         argcheck(who, constraints, make_islistof(Constraint), "list of Constraints for constraints")
         self._create(who, design,
                      crossings, [1 for c in crossings], [1 for c in crossings],
-                     constraints, require_complete_crossing, mode=mode, alignment=alignment)
+                     _own_constraints(constraints), require_complete_crossing, mode=mode, alignment=alignment)
 
 class CrossBlock(MultiCrossBlock):
     """A fully crossed :class:`.Block` meant to be used in experiment
@@ -609,7 +620,7 @@ class CrossBlock(MultiCrossBlock):
         argcheck(who, crossing, make_islistof(Factor), "list of Factors for crossing")
         # Not sure whether constraints can be used here. To Do.
         argcheck(who, constraints, make_islistof(Constraint), "list of Constraints for constraints")
-        self._create(who, design, [crossing], [1], [1], constraints, require_complete_crossing,
+        self._create(who, design, [crossing], [1], [1], _own_constraints(constraints), require_complete_crossing,
                      mode=RepeatMode.WEIGHT)
 
 class Nest(MultiCrossBlockRepeat):
@@ -654,7 +665,7 @@ class Nest(MultiCrossBlockRepeat):
         outer_constraints = [copy.copy(ct) for ct in outer_block.orig_constraints]
         for ct in outer_constraints:
             ct.sustain_within_block(inner_len)
-        all_constraints = outer_constraints + inner_constraints + constraints
+        all_constraints = outer_constraints + inner_constraints + _own_constraints(constraints)
         self._create(
             who=who,
             design=design,
@@ -696,7 +707,7 @@ class Merge(MultiCrossBlock):
         crossings = []
         crossing_sustain_counts = []
         crossing_weights = []
-        constraints = constraints + []
+        constraints = _own_constraints(constraints)
         for b in blocks:
             for f in b.design:
                 if f not in design:
@@ -734,7 +745,7 @@ class Repeat(MultiCrossBlockRepeat):
 
         self._create(who,
                      block.orig_design, block.orig_crossings, block.crossing_sustain_counts, block.crossing_weights,
-                     block.orig_constraints + constraints,
+                     block.orig_constraints + _own_constraints(constraints),
                      block.require_complete_crossing,
                      mode = RepeatMode.REPEAT)
 
